@@ -128,6 +128,17 @@ func genDecide(r *rand.Rand) DecideCase {
 				grp.WithConds = append(grp.WithConds, vd.NameConds{Name: n, Conds: cs})
 			}
 		}
+		// entries for the same syscall need not be neighbours: X, Y, X
+		if len(grp.WithConds) > 1 && r.Intn(2) == 0 {
+			r.Shuffle(len(grp.WithConds), func(i, j int) { grp.WithConds[i], grp.WithConds[j] = grp.WithConds[j], grp.WithConds[i] })
+		}
+		if len(grp.WithConds) > 1 && r.Intn(3) == 0 {
+			// one more alternative for the first entry's syscall, behind everything else
+			first := grp.WithConds[0]
+			cnd := vd.Cond{Arg: uint32(r.Intn(6)), Op: []string{"Equal", "BitsSet", "GreaterThan"}[r.Intn(3)], Val: vd.Operand(r)}
+			operands = append(operands, cnd.Val)
+			grp.WithConds = append(grp.WithConds, vd.NameConds{Name: first.Name, Conds: []vd.Cond{cnd}})
+		}
 		if len(grp.Names)+len(grp.WithConds) > 0 {
 			p.Groups = append(p.Groups, grp)
 		}
@@ -153,6 +164,28 @@ func genDecide(r *rand.Rand) DecideCase {
 			return v
 		}
 		return vd.Operand(r)
+	}
+	// one event per condition list that tries to satisfy exactly that list (short lists only)
+	for _, g := range p.Groups {
+		for _, nc := range g.WithConds {
+			if len(nc.Conds) > 6 || len(c.Events) >= 12 || !isProbe[nc.Name] {
+				continue
+			}
+			ev := Event{Nr: probeNr(nc.Name)}
+			for _, cnd := range nc.Conds {
+				v := cnd.Val
+				switch cnd.Op {
+				case "NotEqual", "GreaterThan":
+					v++
+				case "LessThan":
+					v--
+				case "BitsNotSet":
+					v = ^v
+				}
+				ev.Args[cnd.Arg] = v
+			}
+			c.Events = append(c.Events, ev)
+		}
 	}
 	nev := 10 + r.Intn(10)
 	for i := 0; i < nev; i++ {
@@ -283,6 +316,24 @@ func decideStream(sum *Summary, model *vd.Model, n int, seed int64) {
 	seen := map[string]bool{}
 	for i := 0; i < n; i++ {
 		c := genDecide(rng)
+		// Where the model's search finds an event that the compiled program decides differently from
+		// the policy, let the kernel decide that very event too (only if it is one of the harmless
+		// probe syscalls on the native architecture).
+		if goReply, _ := c.Policy.Compile(); strings.HasPrefix(goReply, "OK ") {
+			if o, err := model.Ask("X x86_64 le " + c.Policy.Body() + " " + strings.TrimPrefix(goReply, "OK ")); err == nil && strings.HasPrefix(o, "CEX ") {
+				var ev Event
+				var archWord uint64
+				if k, _ := fmt.Sscanf(o, "CEX %d %d %d %d %d %d %d %d", &ev.Nr, &archWord, &ev.Args[0], &ev.Args[1], &ev.Args[2], &ev.Args[3], &ev.Args[4], &ev.Args[5]); k == 8 && archWord == 3221225534 {
+					for _, pn := range probes {
+						if probeNr(pn) == ev.Nr {
+							c.Events = append([]Event{ev}, c.Events...)
+							sum.Distribution["event-suggested-by-the-model's-search"]++
+							break
+						}
+					}
+				}
+			}
+		}
 		cj, _ := json.Marshal(c)
 		obs, cerr := observeDecisions(c)
 		if cerr != "" {
